@@ -3,6 +3,7 @@ C09 — distinct selections never share a Go type; each operation's types are st
 -/
 import Genq.Model.TypeMap
 import Genq.Extracted.Inventory
+import Genq.Proofs.TypeNames
 namespace Genq.TypeMap
 
 mutual
@@ -236,3 +237,43 @@ example : WritesFresh [] [.add "A" ⟨"T", []⟩, .get "A" ⟨"T", []⟩, .write
   simp [WritesFresh, Req.fresh, step, getOut, lookup, compatible, selsMatch, run]
 
 end Genq.TypeMap
+
+/-! ### the names themselves (generate/names.go, Model/TypeNames.lean; tied by the driver op `names.typeName`,
+    which the harness compares with the Go type of every composite field of generated programs) -/
+namespace Genq.Names
+
+/-- **C09_names_start_with_operation** — every type generated under an operation or fragment carries that
+    operation's name in front, whatever path of fields and types leads to it -/
+theorem C09_names_start_with_operation (root : Name) (steps : List (Name × Name)) (tn : Name) (algo : Casing) :
+    root <+: makeTypeName (walk root steps algo) tn algo ∧ root <+: makeLongTypeName (walk root steps algo) tn algo :=
+  ⟨makeTypeName_starts_with_root root steps tn algo, makeLongTypeName_starts_with_root root steps tn algo⟩
+
+/-- **C09_unrelated_operations_never_share_names** — two operations (or fragments) neither of whose names is a
+    prefix of the other's cannot collide on any generated name, at any depth, under any casing -/
+theorem C09_unrelated_operations_never_share_names (r1 r2 : Name) (s1 s2 : List (Name × Name)) (t1 t2 : Name)
+    (a1 a2 : Casing) (h12 : ¬ r1 <+: r2) (h21 : ¬ r2 <+: r1) :
+    makeTypeName (walk r1 s1 a1) t1 a1 ≠ makeTypeName (walk r2 s2 a2) t2 a2 :=
+  names_of_unrelated_roots_differ r1 r2 s1 s2 t1 t2 a1 a2 h12 h21
+
+/-- **C09_name_ends_with_type** — below the operation's own struct a generated name ends with the cased GraphQL
+    type name (shortening only ever drops a repetition of it) -/
+theorem C09_name_ends_with_type (p : Prefix) (tn : Name) (algo : Casing) (hp : 1 < p.length) :
+    applyCasing tn algo true <:+ makeTypeName p tn algo ∧
+    (makeTypeName p tn algo = makeLongTypeName p tn algo ∨
+     makeTypeName p tn algo ++ applyCasing tn algo true = makeLongTypeName p tn algo) :=
+  ⟨makeTypeName_ends_with_type p tn algo hp, makeTypeName_short_or_long p tn algo⟩
+
+/-- **C09_naming_is_not_injective** — the naming scheme alone does NOT keep different places apart (the TODO in
+    names.go): `query Get { viewer {…} }` with `viewer: CurrentUser` and `query GetViewer { currentUser {…} }`
+    with `currentUser: User` both ask for `GetViewerCurrentUser`.  So the property rests on the type map's check
+    (C09_reuse_only_same_need …): such a clash must end in a reported conflict. -/
+theorem C09_naming_is_not_injective :
+    makeTypeName (walk "Get".toList [("Query".toList, "viewer".toList)] .default) "CurrentUser".toList .default =
+    makeTypeName (walk "GetViewer".toList [("Query".toList, "currentUser".toList)] .default) "User".toList .default ∧
+    "CurrentUser".toList ≠ "User".toList := by decide
+
+-- non-vacuity of C09_unrelated_operations_never_share_names / C09_name_ends_with_type
+example : ¬ "GetA".toList <+: "GetB".toList ∧ ¬ "GetB".toList <+: "GetA".toList ∧
+    1 < (walk "GetA".toList [("Query".toList, "me".toList)] .default).length := by decide
+
+end Genq.Names
